@@ -188,7 +188,7 @@ func shapeLean(s string) string {
 }
 
 // the decision functions whose shape is a regenerated fact (skel_<name>)
-var skeletonFuncs = []string{"ServeHTTP", "handleCallback", "processAuthorizedRequest", "isUserAuthenticated", "refreshToken", "handleLogout", "defaultInitiateAuthentication", "handleExpiredToken", "sendErrorResponse"}
+var skeletonFuncs = []string{"ServeHTTP", "handleCallback", "processAuthorizedRequest", "isUserAuthenticated", "refreshToken", "handleLogout", "defaultInitiateAuthentication", "handleExpiredToken", "sendErrorResponse", "determineScheme", "determineHost"}
 
 func main() {
 	if len(os.Args) != 5 {
